@@ -37,7 +37,9 @@ def plans(prop, tier):
         m = 220 if q else 600
         P = [prof(21, nops=m, pool=40, maxlen=3, alpha=3, pput=25, prem=15, pget=15, pscan=30, piscan=15, pmem=0, pprobe=70, dumpevery=0),
              prof(22, nops=m, pool=40, maxlen=2, alpha=3, mode="prefix", pput=25, prem=15, pget=15, pscan=30, piscan=15, pmem=0, pprobe=70, dumpevery=0),
-             prof(23, nops=m, pool=60, maxlen=2, alpha=8, mode="mix", pput=25, prem=15, pget=15, pscan=30, piscan=15, pmem=0, pprobe=70, dumpevery=0)]
+             prof(23, nops=m, pool=60, maxlen=2, alpha=8, mode="mix", pput=25, prem=15, pget=15, pscan=30, piscan=15, pmem=0, pprobe=70, dumpevery=0),
+             prof(24, nops=m, pool=40, maxlen=2, alpha=3, mode="linksonly", pput=30, prem=12, pget=13, pscan=30, piscan=15, pmem=0, pprobe=80, dumpevery=0),
+             prof(25, nops=m, pool=60, maxlen=3, alpha=4, mode="linksonly", pput=30, prem=12, pget=13, pscan=30, piscan=15, pmem=0, pprobe=80, dumpevery=0)]
         M = ["MC_Tree_scan5.cfg"] if q else ["MC_Tree_scan5.cfg", "MC_Tree_scan5b.cfg", "MC_Tree_scan6.cfg"]
     elif prop == "C08":
         on = ["C08"]
@@ -106,6 +108,7 @@ def main(prop, tier):
         # quiescent coherence after concurrent histories (any schedule): final dump + three views, judged by TraceLin
         from props import p_conc
         chk.assumptions.append("concurrent part: sequentially consistent scheduler-driven executions, see C01")
+        p_conc.run_model_and_steps(chk, prop, tier, pkey="C08c")
         p_conc.run_conc(chk, prop, tier, pkey="C08c")
     if prop == "C10":
         # second sentence: cursor steps interleaved with writers on trees of any depth
